@@ -4,6 +4,7 @@
 use std::io::{Cursor, SeekFrom};
 
 use crate::ByteSpan;
+use crate::common_file_operations::read_bytes_bounded;
 use crate::crc::XivCrc32;
 use binrw::{BinRead, binread};
 
@@ -59,13 +60,13 @@ pub struct Shader {
 
     /// Additional data specific to the shader type
     #[br(seek_before = SeekFrom::Start(shader_data_offset as u64 + data_offset as u64))]
-    #[br(count = if is_vertex { shader_data_offset } else { 0 } )]
+    #[br(parse_with = read_bytes_bounded, args(if is_vertex { shader_data_offset as u64 } else { 0 }))]
     #[br(restore_position)]
     pub additional_data: Vec<u8>,
 
     /// The HLSL bytecode of this shader. The DX level used varies.
     #[br(seek_before = SeekFrom::Start(shader_data_offset as u64 + data_offset as u64 + if is_vertex { 8 } else { 0 } ))]
-    #[br(count = data_size)]
+    #[br(parse_with = read_bytes_bounded, args(data_size as u64))]
     #[br(restore_position)]
     pub bytecode: Vec<u8>,
 }
